@@ -49,6 +49,10 @@ def instrument_sources():
     # schedule point 3: after the cache insert
     body = sub_once(body, r"^(\s*)(am\.cacheMu\.Unlock\(\))", r'\1\2\n\1verifPoint("v-after-insert")', "cache insert unlock in VerifyToken", rel)
     text = text[:a] + body + text[b:]
+    # schedule point of the cache janitor: after it read the clock (and whatever it does before), right before its WRITE lock
+    a, b = func_span(text, r"^func \(am \*AuthManager\) cleanupExpiredCache\(", rel)
+    body = sub_once(text[a:b], r"^(\s*)(am\.cacheMu\.Lock\(\))", r'\1verifPoint("j-before-lock")\n\1\2', "write lock in cleanupExpiredCache", rel)
+    text = text[:a] + body + text[b:]
     text, n = re.subn(r"^(\s*)am\.InvalidateCache\(\)[ \t]*$", r'\1verifPoint("m-after-update")\n\1am.InvalidateCache()\n\1verifPoint("m-after-invalidate")', text, flags=re.M)
     if n < 3:
         raise vlib.TieBroken("fewer than 3 `am.InvalidateCache()` statements in %s (found %d): revoke/delete/rotate no longer invalidate directly" % (rel, n))
@@ -185,7 +189,7 @@ class Mirror:
         self.cache = {}                       # val -> (info, cexp); insertion order = list order irrelevant here
         self.free = cfg["pool"]
         self.now = t0
-        self.pcs = [("V0",) if t["kind"] == "verify" else ("M0",) for t in threads]
+        self.pcs = [("V0",) if t["kind"] == "verify" else (("J0",) if t["kind"] == "janitor" else ("M0",)) for t in threads]
         self.threads = threads
         self.loc = [None] * len(threads)
 
@@ -206,7 +210,7 @@ class Mirror:
         return None
 
     def finished(self, i):
-        return self.pcs[i][0] in ("VDone", "MDone")
+        return self.pcs[i][0] in ("VDone", "MDone", "JDone")
 
     def needs_conn(self, i):
         return self.pcs[i][0] in ("V1", "M0")
@@ -261,6 +265,13 @@ class Mirror:
             self.free += 1
             self.pcs[i] = ("VDone", True)
             return "vret"
+        if k == "J0":
+            self.pcs[i] = ("J1", self.now)
+            return "jstart"
+        if k == "J1":
+            self.cache = {v: e for v, e in self.cache.items() if not e[1] < pc[1]}
+            self.pcs[i] = ("JDone",)
+            return "jsweep"
         if k == "M0":
             found = any(r["id"] == t["tok"] for r in self.db)
             if found:
@@ -358,8 +369,8 @@ def mk_case(cid, fam, mode, ttl, mx, tokens, threads, sched, t0=T0):
             "tokens": tokens, "threads": threads, "sched": sched}
 
 
-def tok(name, val, exp=None, perms="read", enabled=True):
-    return {"name": name, "val": val, "exp": exp, "perms": perms, "enabled": enabled}
+def tok(name, val, exp=None, perms="read", enabled=True, legacy=False):
+    return {"name": name, "val": val, "exp": exp, "perms": perms, "enabled": enabled, "legacy": legacy}
 
 
 def db_of(tokens):
@@ -413,8 +424,10 @@ def gen_cases(params, rng, tier):
     for mode in ("direct", "cluster"):
         for kind in ("revoke", "delete", "rotate"):
             m = mut(kind, 1, val=1000) if kind == "rotate" else mut(kind, 1)
+            # every schedule in direct mode; in cluster-apply mode (same protocol, other functions) every
+            # schedule in the thorough tier and a seeded half of them in the quick tier
             add("A:%s:%s" % (kind, mode), mode, ttl, 100, one, [m, ver(1), ver(1)],
-                schedules(params, mode, ttl, 100, one, [m, ver(1), ver(1)]))
+                schedules(params, mode, ttl, 100, one, [m, ver(1), ver(1)], rng=rng, sample=None if (big or mode == "direct") else 160))
     # B: UpdateToken (permissions / expiry)
     for mode in ("direct", "cluster"):
         for m in (mut("setperms", 1, perms="read,write"), mut("setexp", 1, exp=T0 + 500 * SEC)):
@@ -463,6 +476,40 @@ def gen_cases(params, rng, tier):
         add("H:3v:%s" % mode, mode, ttl, 100, one, th, schedules(params, mode, ttl, 100, one, th, rng=rng, sample=3000 if big else 120))
         th = [mut("setperms", 1, perms="write"), mut("revoke", 1), ver(1), ver(1)]
         add("H:2m:%s" % mode, mode, ttl, 100, one, th, schedules(params, mode, ttl, 100, one, th, rng=rng, sample=3000 if big else 120))
+    # L: legacy rows (token_prefix '__legacy__', sha256 hash) - selected by every query, matched by hash
+    for mode in ("direct", "cluster"):
+        leg = [tok("old", 1, legacy=True)]
+        for kind in ("revoke", "delete", "rotate"):
+            m = mut(kind, 1, val=1000) if kind == "rotate" else mut(kind, 1)
+            add("L:legacy:%s:%s" % (kind, mode), mode, ttl, 100, leg, [m, ver(1)], schedules(params, mode, ttl, 100, leg, [m, ver(1)]))
+            add("L:legacy2:%s:%s" % (kind, mode), mode, ttl, 100, leg, [m, ver(1), ver(1)],
+                schedules(params, mode, ttl, 100, leg, [m, ver(1), ver(1)], rng=rng, sample=None if big else 25))
+        for tb in ([tok("old", 1, legacy=True, enabled=False)], [tok("old", 2, legacy=True), tok("new", 1)],
+                   [tok("old", 1, legacy=True, enabled=False), tok("new", 1, perms="write")],
+                   [tok("old", 1, legacy=True, exp=T0 + 10 * SEC)]):
+            th = [mut("revoke", 1), ver(1), ver(1)]
+            add("L:legacy-tables:%s" % mode, mode, ttl, 100, tb, th, schedules(params, mode, ttl, 100, tb, th, ticks=(11 * SEC,), rng=rng,
+                                                                              sample=None if big else 15, probes=False))
+    # N: the cache janitor as a thread: an expired entry of another token is in the cache, the
+    #    janitor runs (clock read / sweep under the write lock) while the token is revoked,
+    #    deleted or rotated, then the old value is verified again
+    two = [tok("a", 1), tok("b", 2, perms="write")]
+
+    def interleavings(xs, ys):
+        if not xs:
+            return [ys]
+        if not ys:
+            return [xs]
+        return [[xs[0]] + r for r in interleavings(xs[1:], ys)] + [[ys[0]] + r for r in interleavings(xs, ys[1:])]
+    for mode in ("direct", "cluster"):
+        for kind in ("revoke", "delete", "rotate"):
+            m = mut(kind, 1, val=1000) if kind == "rotate" else mut(kind, 1)
+            th = [ver(2), ver(1), {"kind": "janitor"}, m, ver(1), {"kind": "janitor"}]
+            pre = [{"t": 0}] * 4 + [{"tick": ttl + 1}] + [{"t": 1}] * 4
+            post = [{"t": 4}] * 4 + [{"t": 5}] * 2 + [{"t": 4}]
+            for mid in interleavings([{"t": 2}] * 2, [{"t": 3}] * 3):
+                for extra_tick in ((), ({"tick": ttl // 2},)):
+                    cases.append(mk_case(len(cases), "N:janitor:%s:%s" % (kind, mode), mode, ttl, 100, two, th, pre + list(extra_tick) + mid + post))
     return cases
 
 
@@ -528,14 +575,16 @@ def scenario_key(c):
 
 def scenario_to_coq(key, perm):
     c = json.loads(key)
-    rows = ["{| r_id := %s; r_val := %s; r_enabled := %s; r_exp := %s; r_perms := %s |}" % (
-        cn(i + 1), cn(t["val"]), cbool(t["enabled"]), copt_z(t["exp"]), cn(perm(t["perms"]))) for i, t in enumerate(c["tokens"])]
+    rows = ["{| r_id := %s; r_val := %s; r_enabled := %s; r_exp := %s; r_perms := %s; r_legacy := %s |}" % (
+        cn(i + 1), cn(t["val"]), cbool(t["enabled"]), copt_z(t["exp"]), cn(perm(t["perms"])), cbool(t.get("legacy", False))) for i, t in enumerate(c["tokens"])]
     mode = "Direct" if c["mode"] == "direct" else "Cluster"
     ths = []
     for t in c["threads"]:
         k = t["kind"]
         if k == "verify":
             ths.append("V0 %s" % cn(t["val"]))
+        elif k == "janitor":
+            ths.append("J0")
         elif k == "revoke":
             ths.append("M0 %s (Revoke %s)" % (mode, cn(t["tok"])))
         elif k == "delete":
@@ -563,7 +612,7 @@ def enc(digs, base):
 
 
 STEP_DIGIT = {"tick": 0, "blocked": 1, "done": 2, "already-done": 3, "at:v-after-lookup": 4, "at:v-after-dbread": 5,
-              "at:v-after-insert": 6, "at:m-after-update": 7, "at:m-after-invalidate": 8}
+              "at:v-after-insert": 6, "at:m-after-update": 7, "at:m-after-invalidate": 8, "at:j-before-lock": 9}
 
 
 def case_to_coq(c, scen_index, perm):
@@ -616,7 +665,8 @@ def run_cases(cases, tag):
 
 def nontrivial(c):
     """a mutation step falls between two verifier steps"""
-    kinds = [None if "tick" in e else ("v" if c["threads"][e["t"]]["kind"] == "verify" else "m") for e in c["sched"]]
+    kinds = [None if "tick" in e or c["threads"][e["t"]]["kind"] == "janitor" else ("v" if c["threads"][e["t"]]["kind"] == "verify" else "m")
+             for e in c["sched"]]
     for i, k in enumerate(kinds):
         if k == "m" and "v" in kinds[:i] and "v" in kinds[i + 1:]:
             return True
